@@ -85,6 +85,22 @@ def check_case(rep, case, closed, stats, max_perms):
         rep.case((n, k, q, case["a"], x, name, "bounds", closed))
         for pr in probs:
             rep.violation(f"{cdesc}: {name}: {pr}", {"case": _c(case), "closed": closed, "name": name}, tags=(name, "bounds"))
+    # 2b. a hard partition given as an integer or boolean indicator matrix is the same predictions matrix
+    if onehot:
+        for name in names13():
+            A = default_aff(name, x)
+            g = _str_to_gemini(name)
+            for dt in (np.int64, bool):
+                rep.case((n, k, q, case["a"], x, name, "dtype", str(dt)))
+                try:
+                    v = float(g((a == q).astype(dt), None if A is None else A.copy()))
+                    okv = abs(v - vals[name]) <= 1e-9 * max(1.0, abs(vals[name]))
+                    msg = f"score {v!r} vs {vals[name]!r} for float64"
+                except Exception as e:
+                    okv, msg = False, f"raised {type(e).__name__}: {e}"
+                if not okv:
+                    rep.violation(f"{cdesc}: {name} on the same one-hot predictions given with dtype {np.dtype(dt)}: {msg}",
+                                  {"case": _c(case), "name": name, "dtype": str(np.dtype(dt))}, tags=(name, "dtype"))
     # 3. permutations (code vs code)
     perms = list(itertools.product(itertools.permutations(range(n)), itertools.permutations(range(k))))[1:]
     if len(perms) > max_perms:
